@@ -769,6 +769,19 @@ def snapshot_mutable_defaults(prefix=IXAI_PREFIX):
                         continue
                     shared.append((obj, attr, copy.deepcopy(val), f"{name}.{obj.__qualname__}.{attr}"))
 
+    # generator objects created at import time (module / class level) are private entropy sources
+    generators = []
+    gen_types = (_real_random.Random, _np.random.Generator, _np.random.RandomState)
+    for name, m in list(sys.modules.items()):
+        if m is None or not (name == prefix or name.startswith(prefix + '.')):
+            continue
+        for attr, val in list(vars(m).items()):
+            if isinstance(val, gen_types):
+                generators.append(f"{name}.{attr}")
+        for obj in list(vars(m).values()):
+            if inspect.isclass(obj) and obj.__module__ == name:
+                generators += [f"{name}.{obj.__qualname__}.{a}" for a, v in vars(obj).items() if isinstance(v, gen_types)]
+
     def reset():
         for f, d, kd in found:
             if d is not None:
@@ -779,4 +792,5 @@ def snapshot_mutable_defaults(prefix=IXAI_PREFIX):
             setattr(owner, attr, copy.deepcopy(val))
     reset.functions = [f"{f.__module__}.{f.__qualname__}" for f, _d, _k in found]
     reset.shared_containers = [n for _o, _a, _v, n in shared]
+    reset.import_time_generators = generators
     return reset
